@@ -552,3 +552,10 @@ def r10(rr, repo):
     loop = [n for n in walk_scope(za.R_recv) if isinstance(n, ast.While)]
     rep = [c for n in loop for c in q.calls_in(n, into_functions=False) if U(c.func) == 'request']
     rr.floor('request() calls inside the waiting loop of recv()', len(rep), 1, za.mod, za.R_recv)
+
+
+@rule('C04.R11', "a relay hands a downstream request for a newer id on to its own source: the state MQ.send gets back from the sender reaches the next recv() also when nothing was published (the sender adopted a newer id), "
+                 "otherwise the source behind the relay publishes one frame per missing id while the consumer takes none (shares C02.R7)")
+def r11(rr, repo):
+    from .c02 import r7 as c02r7
+    c02r7(rr, repo)
